@@ -41,13 +41,17 @@ structure Defects where
   intRangeNotChecked : Bool := false
   /-- a required variable without a value is not a validation (request) error -/
   missingVariableAccepted : Bool := false
+  /-- `FieldsOnCorrectType` skips every unknown field that carries a directive NAMED `ifdef` (remnant
+      of a built-in directive that no longer exists; reachable when the schema registers a custom
+      directive of that name) -/
+  ifdefSkipsUnknownField : Bool := false
   deriving Repr, Inhabited, DecidableEq
 
 def Defects.pinned : Defects :=
   { inputValueNotForwarded := true, subtypeListNonNull := true, locationDefaultIgnored := true,
     typenameNotVisited := true, overlapKeyedByCondition := true, noSingleRootSubscription := true,
     inputObjectAnyValue := true, enumAcceptsString := true, intRangeNotChecked := true,
-    missingVariableAccepted := true }
+    missingVariableAccepted := true, ifdefSkipsUnknownField := true }
 
 -- ------------------------------------------------------------------ message kinds
 
@@ -438,7 +442,7 @@ def stateless (S : VSchema) (D : Defects) (d : Doc) (e : Evt) : List Kind :=
      | some p =>
        if S.isAbstract p && n = "__typename" then []
        else if !D.typenameNotVisited && n = "__typename" then []
-       else if (S.field? p n).isNone && !(ds.any (·.name = "ifdef")) then [.unknownField] else []
+       else if (S.field? p n).isNone && !(D.ifdefSkipsUnknownField && ds.any (·.name = "ifdef")) then [.unknownField] else []
      | none => [])
     -- ScalarLeafs
     ++ (match (e.par.bind (fun p => S.field? p n)).bind (fun f => S.concrete f.ty) with
